@@ -8,7 +8,7 @@
    program is also run with its struct and task definitions permuted and interleaved at
    random; same verdict, and the model agrees on both). *)
 From PFDL Require Import Base Syntax.
-From PFDL.Check Require Import CheckModel Typing TypingProofs Guards CheckProofsC11 CheckRefuted Witnesses.
+From PFDL.Check Require Import CheckModel Typing TypingProofs Guards CheckProofsC09 CheckProofsC11 CheckRefuted Witnesses.
 
 (* the generator is not trusted: each generated program is certified by wf_dec, and wf_dec
    decides WF *)
@@ -16,52 +16,59 @@ Theorem C11_wf_dec_correct : forall p, wf_dec p = true <-> WF p.
 Proof. exact wf_dec_correct. Qed.
 Print Assumptions C11_wf_dec_correct.
 
-(* Full statement: false of the faithful model (known findings D20, D11a, D11c) … *)
+(* Full statement: false of the faithful model (known findings D24, D25) … *)
 Theorem C11_wf_accepted_refuted : ~ C11_wf_accepted.
 Proof. exact not_wf_accepted. Qed.
 Print Assumptions C11_wf_accepted_refuted.
 
-(* … witnesses: a string attribute compared with == is rejected; a parenthesised string operand
-   of < is rejected; an array element in a guard, an element of an array of primitives as
-   parameter and an array element as condition raise. *)
+(* … witnesses (all well-formed, all rejected with a message; before the repairs D11a / D11c
+   the array-element cases raised): a string attribute compared with ==; a parenthesised string
+   operand of <; an array element inside a guard, as the whole condition, as a loop limit; an
+   element of an array of primitives as parameter. *)
 Theorem C11_refuted_string_equality :
-  wf_dec w_D20_string_equality = true /\ validate w_D20_string_equality = Ok [(KNotBoolean, CStmt 0 [1])].
+  wf_dec w_D24_string_equality = true /\ validate w_D24_string_equality = Ok [(KNotBoolean, CStmt 0 [1])].
 Proof. exact wf_rejected_string_equality. Qed.
 Print Assumptions C11_refuted_string_equality.
 Theorem C11_refuted_parenthesised_string :
-  wf_dec w_D20_parenthesised_string_operand = true
-  /\ validate w_D20_parenthesised_string_operand = Ok [(KCmpTypes, CStmt 0 [1])].
+  wf_dec w_D24_parenthesised_string_operand = true
+  /\ validate w_D24_parenthesised_string_operand = Ok [(KCmpTypes, CStmt 0 [1])].
 Proof. exact wf_rejected_parenthesised_string. Qed.
 Print Assumptions C11_refuted_parenthesised_string.
 Theorem C11_refuted_array_element_in_guard :
-  wf_dec w_D11a_array_element_in_guard = true /\ validate w_D11a_array_element_in_guard = Exn TypeError.
-Proof. exact wf_crash_array_element_in_guard. Qed.
+  wf_dec w_D25_array_element_in_guard = true
+  /\ validate w_D25_array_element_in_guard = Ok [(KCmpTypes, CStmt 0 [1])].
+Proof. exact wf_rejected_array_element_in_guard. Qed.
 Print Assumptions C11_refuted_array_element_in_guard.
-Theorem C11_refuted_primitive_array_element :
-  wf_dec w_D11c_primitive_array_element = true /\ validate w_D11c_primitive_array_element = Exn KeyError.
-Proof. exact wf_crash_primitive_array_element. Qed.
-Print Assumptions C11_refuted_primitive_array_element.
 Theorem C11_refuted_array_element_as_condition :
-  wf_dec w_array_element_as_condition = true /\ validate w_array_element_as_condition = Exn TypeError.
-Proof. exact wf_crash_array_element_as_condition. Qed.
+  wf_dec w_array_element_as_condition = true
+  /\ validate w_array_element_as_condition = Ok [(KNotBoolean, CStmt 0 [1])].
+Proof. exact wf_rejected_array_element_as_condition. Qed.
 Print Assumptions C11_refuted_array_element_as_condition.
+Theorem C11_refuted_array_element_as_limit :
+  wf_dec w_D25_array_element_as_limit = true
+  /\ validate w_D25_array_element_as_limit = Ok [(KLimitNotNumber, CStmt 0 [1])].
+Proof. exact wf_rejected_array_element_as_limit. Qed.
+Print Assumptions C11_refuted_array_element_as_limit.
+Theorem C11_refuted_primitive_array_element :
+  wf_dec w_D25_primitive_array_element = true
+  /\ validate w_D25_primitive_array_element = Ok [(KNotAStruct, CStmtIn 0 [1])].
+Proof. exact wf_rejected_primitive_array_element. Qed.
+Print Assumptions C11_refuted_primitive_array_element.
 
-(* … and true under the executable guard that excludes exactly those shapes: every
-   well-formed program — any nesting of statements, variables, attribute paths and array
+(* … and true under the executable guard that excludes exactly those shapes (c11_guard: no
+   array element in a guard or limit, no element of a primitive array as parameter, no string
+   attribute where only numbers and booleans are accepted, no parenthesised string operand):
+   every well-formed program — any nesting of statements, variables, attribute paths and array
    elements as parameters, struct literals with nested structs and arrays, task inputs and
-   outputs matched by position and type — is accepted with no message. *)
+   outputs matched by position and type, loop limits, no recursion — is accepted with no
+   message. *)
 Theorem C11_wf_accepted_partial : forall p, WF p -> c11_guard p = true -> validate p = Ok [].
 Proof. exact wf_accepted_under_guard. Qed.
 Print Assumptions C11_wf_accepted_partial.
 
-(* the guard in terms of the guard of C16 and the D20 shape *)
-Theorem C11_wf_accepted_crash_free : forall p,
-  WF p -> crash_free p = true -> sh_string_eq p = false -> validate p = Ok [].
-Proof. exact wf_accepted_crash_free. Qed.
-Print Assumptions C11_wf_accepted_crash_free.
-
 (* fragments, for every well-formed program without any guard: the visitor prints nothing, the
-   struct definitions pass, the inputs and outputs of every task pass *)
+   struct definitions pass, the inputs and outputs of every task pass, no call is reported as
+   recursive *)
 Theorem C11_visitor_silent : forall p, WF p -> visit_errs p = [].
 Proof. exact wf_visit_errs_nil. Qed.
 Print Assumptions C11_visitor_silent.
@@ -72,15 +79,21 @@ Theorem C11_task_signatures_pass : forall p, WF p -> forall kv, In kv (e_tasks (
   check_task_inputs (visit_env p) (snd kv) = ok_true /\ check_task_outputs (snd kv) = ok_true.
 Proof. exact wf_check_task_io. Qed.
 Print Assumptions C11_task_signatures_pass.
+Theorem C11_no_recursion_reported : forall p, WF p -> forall tk n f,
+  In tk (p_tasks p) -> In n (task_calls tk) -> task_reaches (visit_env p) f n (t_name tk) = false.
+Proof. exact wf_no_recursion. Qed.
+Print Assumptions C11_no_recursion_reported.
 
 Theorem C11_guard_inhabited :
-  wf_dec w_good_small = true /\ c11_guard w_good_small = true /\ crash_free w_good_small = true
-  /\ sh_string_eq w_good_small = false.
-Proof. exact c11_guard_inhabited. Qed.
+  wf_dec w_good_small = true /\ from_grammar w_good_small = true /\ validate w_good_small = Ok []
+  /\ c11_guard w_good_small = true /\ sh_bad_guard w_good_small = false
+  /\ sh_string_eq w_good_small = false /\ sh_array_element w_good_small = false
+  /\ sched_safe w_good_small = true /\ guards_typed w_good_small = true.
+Proof. exact good_small_in_all_guards. Qed.
 Print Assumptions C11_guard_inhabited.
 Theorem C11_guard_excludes_the_witnesses :
-  c11_guard w_D20_string_equality = false /\ c11_guard w_D20_parenthesised_string_operand = false
-  /\ c11_guard w_D11a_array_element_in_guard = false /\ c11_guard w_D11c_primitive_array_element = false
-  /\ c11_guard w_array_element_as_condition = false.
+  c11_guard w_D24_string_equality = false /\ c11_guard w_D24_parenthesised_string_operand = false
+  /\ c11_guard w_D25_array_element_in_guard = false /\ c11_guard w_array_element_as_condition = false
+  /\ c11_guard w_D25_array_element_as_limit = false /\ c11_guard w_D25_primitive_array_element = false.
 Proof. exact c11_witnesses_outside_guard. Qed.
 Print Assumptions C11_guard_excludes_the_witnesses.
